@@ -136,6 +136,8 @@ Definition k_stop := zs "stop".
 Definition k_user := zs "user".
 Definition k_label := zs "moltype".
 Definition float_zero := zs "0.0".
+Definition k_motifset := zs "motifset".
+Definition k_gap := zs "gap".
 
 Definition version_str := zs "2024.7.19a6".
 
@@ -173,6 +175,7 @@ Definition ty_span := zs "cogent3.core.location.Span".
 Definition ty_lostspan := zs "cogent3.core.location._LostSpan".
 Definition ty_basicdb := zs "cogent3.core.annotation_db.BasicAnnotationDb".
 Definition ty_moltype := zs "cogent3.core.moltype.MolType".
+Definition ty_alphabet := zs "cogent3.core.alphabet.Alphabet".
 
 Definition label_of (k : kind) : list Z :=
   match k with KDna => zs "dna" | KRna => zs "rna" | KOther => zs "text" end.
@@ -859,6 +862,50 @@ Definition moltype_to_dict (label : list Z) : json :=
 Definition moltype_of_dict (d : dict) : res (list Z) :=
   bind (get_str (jget k_label d)) (fun l => if mem_str l moltype_labels then Ok l else Err E_Value).
 
+(** an (old-style) [Alphabet]: the motifs in order, the gap motif, the moltype BY LABEL *)
+Record alphabet := mkAlpha { al_motifs : list (list Z); al_gap : option (list Z); al_label : list Z }.
+
+(** [Alphabet.to_rich_dict] (no genetic code attached) *)
+Definition alphabet_to_dict (a : alphabet) : json :=
+  JObj [ (k_motifset, JArr (map JStr (al_motifs a))); (k_gap, jopt_str (al_gap a)); (k_label, JStr (al_label a));
+         (k_type, JStr ty_alphabet); (k_version, JStr version_str) ].
+
+Fixpoint strs_of_json (l : list json) : res (list (list Z)) :=
+  match l with
+  | [] => Ok []
+  | JStr x :: r => bind (strs_of_json r) (fun rr => Ok (x :: rr))
+  | _ :: _ => Err E_Type
+  end.
+
+(** [deserialise_alphabet]: [get_moltype(label)], then the class on the motifs ("data" if present, else "motifset") and
+    the remaining fields (gap, moltype) *)
+Definition alphabet_of_dict (d : dict) : res alphabet :=
+  bind (get_str (jget k_label d)) (fun lab =>
+  if negb (mem_str lab moltype_labels) then Err E_Value else
+  match (match jget k_data d with Some j => Some j | None => jget k_motifset d end) with
+  | Some (JArr ms) =>
+      bind (strs_of_json ms) (fun motifs =>
+      bind (get_opt_str (jget k_gap d)) (fun g => Ok (mkAlpha motifs g lab)))
+  | Some _ => Err E_Type
+  | None => Err E_Key
+  end).
+
+(** an [Alignment] with an annotation db: [to_rich_dict()] adds "annotation_db" when the db holds records;
+    [deserialise_seq_collections] pops it and sets [result.annotation_db = deserialise_object(annotation_db)] *)
+Definition alignment_db_to_dict (k : kind) (info : dict) (rows : list aligned) (tables : list Z) (db : list AnnotDb.row) : json :=
+  match alignment_to_dict k info rows, db with
+  | JObj d, _ :: _ => JObj (d ++ [(k_annotation_db, db_to_dict tables db)])
+  | j, _ => j
+  end.
+
+Definition alignment_db_of_dict (d : dict) : res ((kind * dict * list aligned) * list AnnotDb.row) :=
+  bind (alignment_of_dict d) (fun a =>
+  match jget k_annotation_db d with
+  | Some (JObj dbd) => bind (db_of_dict dbd) (fun rows => Ok (a, rows))
+  | Some JNull | None => Ok (a, [])
+  | Some _ => Err E_Type
+  end).
+
 (** * the registry *)
 
 (** the deserialiser functions, by name *)
@@ -992,7 +1039,9 @@ Inductive obj :=
 | OFmap (m : FeatureMap.fmap)
 | ODb (tables : list Z) (rows : list AnnotDb.row)
 | OSeqDb (s : seqobj) (tables : list Z) (rows : list AnnotDb.row)
-| OMolType (label : list Z).
+| OMolType (label : list Z)
+| OAlphabet (a : alphabet)
+| OAlignmentDb (k : kind) (info : dict) (rows : list aligned) (tables : list Z) (db : list AnnotDb.row).
 
 Definition to_dict (x : obj) : json :=
   match x with
@@ -1011,6 +1060,8 @@ Definition to_dict (x : obj) : json :=
   | ODb tables rows => db_to_dict tables rows
   | OSeqDb s tables rows => seq_db_to_dict s tables rows
   | OMolType l => moltype_to_dict l
+  | OAlphabet a => alphabet_to_dict a
+  | OAlignmentDb k inf rows tables db => alignment_db_to_dict k inf rows tables db
   end.
 
 Definition s_Table := zs "Table".
@@ -1031,7 +1082,12 @@ Definition run_decoder (f : decoder) (d : dict) : res obj :=
   | DNewSequence | DNewDnaSequence | DNewRnaSequence => bind (seq_of_dict_new d) (fun s => Ok (OSeq SNew s))
   | DIndelMap => bind (imap_of_dict d) (fun m => Ok (OImap m))
   | DAligned => bind (aligned_of_dict d) (fun a => Ok (OAligned a))
-  | DSeqCollections => bind (alignment_of_dict d) (fun '(k, inf, rows) => Ok (OAlignment k inf rows))
+  | DSeqCollections =>
+      match jget k_annotation_db d with
+      | Some (JObj _) => bind (alignment_db_of_dict d) (fun ar => let '(k, inf, rows) := fst ar in Ok (OAlignmentDb k inf rows [0; 1] (snd ar)))
+      | _ => bind (alignment_of_dict d) (fun '(k, inf, rows) => Ok (OAlignment k inf rows))
+      end
+  | DAlphabet => bind (alphabet_of_dict d) (fun a => Ok (OAlphabet a))
   | DTree => bind (tree_of_dict d) (fun t => Ok (OTree t))
   | DNotCompleted => bind (nc_of_dict d) (fun n => Ok (ONotCompleted n))
   | DTabular =>
